@@ -34,7 +34,7 @@ RULE = ('(a) 11 failure families x failing period s in 1..3 x cap in {0,1,2,10,1
         'entry point, and 9 kinds of ill-formed declarations: must raise with no series produced; non-trivial = cases that reached the '
         'behaviour under test (failed in the intended period / converged / were refused)')
 ASSUMPTIONS = [
-    'a case running longer than 20 s wall-clock counts as unbounded work (the largest legitimate case takes < 0.5 s)',
+    'a case running longer than 30 s wall-clock counts as unbounded work (the largest legitimate case takes < 0.5 s)',
     '"rejected with an error" = any exception; for (a) the statement names convergence/value errors, so ValueError or a subclass is required',
     'RHS-token rejection excludes the documented arithmetic helpers float,max,min,sum,pow,abs,round',
 ]
@@ -81,7 +81,7 @@ def solve(text, red, cap, trace=None):
         s.TraceStep = trace
     err = None
     try:
-        core.with_deadline(20.0, s.SolveEquation)
+        core.with_deadline(30.0, s.SolveEquation)
     except core.WorkBudgetExceeded:
         err = 'HANG'
     except Exception as e:
@@ -96,7 +96,7 @@ def check_failure(label, block, expect, s_period, red, tol, cap):
     text = blk.text()
     sol, err = solve(text, red, cap)
     if err == 'HANG':
-        return 'hang', [core.violation('unbounded-work', 'solve did not stop within 20 s (cap %d)' % cap, case)], False
+        return 'hang', [core.violation('unbounded-work', 'solve did not stop within 30 s (cap %d)' % cap, case)], False
     if err is None:
         if expect == 'fail' and cap >= 50:
             # a failing family that returns normally: not this property's clause (C02 judges returned values) unless
@@ -136,7 +136,7 @@ def check_failure(label, block, expect, s_period, red, tol, cap):
     # bounded work: trace the failing period
     tr, terr = solve(text, red, cap, trace=L)
     if terr == 'HANG':
-        viols.append(core.violation('unbounded-work', 'traced solve did not stop within 20 s', case))
+        viols.append(core.violation('unbounded-work', 'traced solve did not stop within 30 s', case))
     else:
         sweeps = len(tr.TimeSeriesStepTrace.get('iteration', []))
         if sweeps > cap + 1:
@@ -202,7 +202,7 @@ def check_success(label, text, case):
     viols = []
     for red, e in ((True, err), (False, err2)):
         if e == 'HANG':
-            viols.append(core.violation('unbounded-work', 'contraction did not stop within 20 s', dict(case, reduction=red)))
+            viols.append(core.violation('unbounded-work', 'contraction did not stop within 30 s', dict(case, reduction=red)))
         elif e is not None:
             viols.append(core.violation('contraction-not-solved:' + type(e).__name__,
                                         '%s: a 0.8-contraction was not solved within the default cap (reduction=%s): %s' % (label, red, str(e)[:100]),
@@ -241,7 +241,7 @@ def check_name(name, position, red, route):
         else:
             s = EquationSolver(run_equation_reduction=red)
             s.ParseString(text)
-        core.with_deadline(20.0, s.SolveEquation)
+        core.with_deadline(30.0, s.SolveEquation)
     except core.WorkBudgetExceeded:
         return 'hang', [core.violation('unbounded-work', 'did not stop', case)]
     except Exception as e:
@@ -306,7 +306,7 @@ def check_declaration(label, fn):
     try:
         m = fn()
         m.MaxTime = 2
-        core.with_deadline(20.0, m.main)
+        core.with_deadline(30.0, m.main)
     except core.WorkBudgetExceeded:
         return 'hang', [core.violation('unbounded-work', 'did not stop', case)]
     except BaseException as e:     # the library raises Warning in one place
